@@ -57,6 +57,14 @@ CLAIMS = {
         "note": TB + " Not decided: atomicity w.r.t. foreign sigaction callers (documented race).",
         "technique": "static analysis: dominance, control-dependence facts on switch edges, argument provenance over MIR",
     },
+    "C05": {
+        "text": "Static who-writes / footprint / constant rules: next_id written only as old+1 on the clone by the registering function, SigId = (signal "
+                "parameter, pre-increment id) returned only after the publish; forbidden map-method sets per mutator with keys traced to id.signal / "
+                "id.action / signal; return value and publish condition are the same boolean; every sigaction site is install (flags fold to "
+                "SA_RESTART|SA_SIGINFO, dispatcher address), query (null) or the terminating SIG_DFL restore; SigId fields private.",
+        "note": TB + " Not decided: equivalence to the abstract multiset model over arbitrary histories.",
+        "technique": "static analysis: who-may-write inventory, key provenance, constant folding of flag words, control-dependence on MIR",
+    },
 }
 
 PENDING = "check under construction in this round (rules designed in DESIGN.md §4); not claimed until the rule set runs clean"
